@@ -456,6 +456,26 @@ func c12Traces(c *Ctx) {
 			}
 			sort.Strings(r9)
 			c.verdict(len(r9) == 0, "C12.R9", key, pos, "every And-successor of a finished stage is accounted for", strings.Join(r9, "; "), path...)
+			// R15: a stage that declares outputs is reported finished only together with one of them. Finishing it with no
+			// output resolves the stage node but leaves every declared output node neither resolved nor impossible: whatever
+			// waits for <step>.<stage>.<output> stays pending, and the run can only end through the fallback detector — once
+			// every unrelated step has ended. (Entering `closed` is exempt: the run is being torn down.)
+			var r15 []string
+			for _, e := range si.notifs {
+				if e.Kind != "change" || e.Args[0] == "nil" || e.Args[1] != "nil" || e.Args[2] == "closed" {
+					continue
+				}
+				has := dynamic[e.Args[0]]
+				for _, d := range decl {
+					if d.stage == e.Args[0] {
+						has = true
+					}
+				}
+				if has {
+					r15 = append(r15, fmt.Sprintf("stage %s declares outputs but is reported finished (on the way to %s) without one", e.Args[0], e.Args[2]))
+				}
+			}
+			c.verdict(len(r15) == 0, "C12.R15", key, pos, "stages with declared outputs finish with one of them", strings.Join(r15, "; "), path...)
 		}
 	}
 }
